@@ -77,6 +77,18 @@ MUTANTS = [
     ('c17_spherical_triangle_key_ignores_reflected', 'C17', 'violation', [
         ('a5/projections/dodecahedron.py', "        if reflected:\n            index += 120\n", "        if reflected:\n            index += 0\n"),
     ], 3000),
+    ('c17_compact_memo_keyed_by_id', 'C17', 'violation', [
+        ('a5/core/compact.py', "    if len(cells) == 0:\n        return []\n",
+         "    if len(cells) == 0:\n        return []\n    _k = (id(cells), len(cells))\n    if _k in _MEMO:\n        return list(_MEMO[_k])\n"),
+        ('a5/core/compact.py', "    return current_cells\n", "    _MEMO[_k] = list(current_cells)\n    return current_cells\n"),
+        ('a5/core/compact.py', "def compact(cells: List[int]) -> List[int]:", "_MEMO = {}\n\ndef compact(cells: List[int]) -> List[int]:"),
+    ], 3000),
+    ('c16_killed_thread_leaves_torn_memo', 'C16', 'violation', [
+        ('a5/projections/dodecahedron.py', "        origin = origins[origin_id]\n\n        # Transform back to origin space\n",
+         "        origin = origins[origin_id]\n        _fk = (spherical[0], spherical[1], origin_id)\n        if getattr(self, '_fk', None) == _fk:\n            return self._fv\n        self._fk = _fk\n\n        # Transform back to origin space\n"),
+        ('a5/projections/dodecahedron.py', "        return self.polyhedral.forward(unprojected, spherical_triangle, face_triangle)\n",
+         "        self._fv = self.polyhedral.forward(unprojected, spherical_triangle, face_triangle)\n        return self._fv\n"),
+    ], 1200),
 ]
 
 
